@@ -892,6 +892,65 @@ def _split_kind(src: ast.AST, rname: str, qn: str) -> T.Tuple[T.Set[str], T.Opti
     raise Undecided(f'{qn}: lines are produced by {short(src)}')
 
 
+def _line_table_positions(ctx: RuleCtx, mod: Module, e0: ast.AST, res: T.Callable[[ast.AST], ast.AST], rname: str, qn: str, term: T.Set[str]) -> bool:
+    """The table written from the terminator positions: [0] + [p + 1 for p, ch in enumerate(text) if ch == '<nl>'] (also [0, *(...)] and
+    `ch in <constant set>`): a line starts at 0 and right after every terminator character.  False: not this form."""
+    e = e0
+    has_zero = False
+    comp: T.Optional[ast.AST] = None
+    if isinstance(e, ast.BinOp) and isinstance(e.op, ast.Add) and isinstance(e.left, ast.List) and len(e.left.elts) == 1:
+        has_zero = isinstance(e.left.elts[0], ast.Constant) and e.left.elts[0].value == 0 and not isinstance(e.left.elts[0].value, bool)
+        comp = res(e.right)
+    elif isinstance(e, ast.List) and len(e.elts) == 2 and isinstance(e.elts[1], ast.Starred):
+        has_zero = isinstance(e.elts[0], ast.Constant) and e.elts[0].value == 0 and not isinstance(e.elts[0].value, bool)
+        comp = res(e.elts[1].value)
+    elif isinstance(e, (ast.ListComp, ast.GeneratorExp)):
+        comp = e
+    if isinstance(comp, ast.Call) and norm(comp.func) == 'list' and len(comp.args) == 1:
+        comp = comp.args[0]
+    if not (isinstance(comp, (ast.ListComp, ast.GeneratorExp)) and len(comp.generators) == 1):
+        return False
+    g = comp.generators[0]
+    if not (isinstance(g.iter, ast.Call) and norm(g.iter.func) == 'enumerate' and len(g.iter.args) == 1 and not g.iter.keywords
+            and isinstance(g.target, ast.Tuple) and len(g.target.elts) == 2 and all(isinstance(x, ast.Name) for x in g.target.elts)):
+        return False
+    pos, ch = (T.cast(ast.Name, x).id for x in g.target.elts)
+    if norm(res(g.iter.args[0])) != rname and norm(g.iter.args[0]) != rname:
+        raise Undecided(f'{qn}: the line table enumerates {short(g.iter.args[0])}, not the text that is spliced ({rname})')
+    if len(g.ifs) != 1:
+        raise Undecided(f'{qn}: the line table comprehension has {len(g.ifs)} filters')
+    f = g.ifs[0]
+    seps: T.Optional[T.Set[str]] = None
+    if isinstance(f, ast.Compare) and len(f.ops) == 1:
+        a, b = f.left, f.comparators[0]
+        if isinstance(f.ops[0], ast.Eq):
+            other = b if norm(a) == ch else a if norm(b) == ch else None
+            if isinstance(other, ast.Constant) and isinstance(other.value, str):
+                seps = {other.value}
+        elif isinstance(f.ops[0], ast.In) and norm(a) == ch:
+            try:
+                v = fold_expr(ctx.repo, mod, b)
+            except Undecided:
+                v = None
+            if isinstance(v, str):
+                seps = set(v)
+            elif isinstance(v, (set, frozenset, list, tuple)) and all(isinstance(x, str) for x in v):
+                seps = set(v)
+    if seps is None or any(len(x) != 1 for x in seps):
+        raise Undecided(f'{qn}: the line table filter {short(f)} is not a test of the character against constant terminators')
+    coef, const = linear(comp.elt)
+    ok = has_zero and coef == {pos: 1} and const == 1
+    ctx.require(ok, 'line table is 0 followed by <position of each terminator> + 1', mod, qn, e0,
+                f'line table built as {short(e0, 120)}: {"starts at 0" if has_zero else "has no entry 0 for the first line"}, a line start is recorded as {norm(comp.elt)} for a '
+                f'terminator at {pos}; the line after a terminator starts at {pos} + 1', e0)
+    diff = sorted(seps ^ term, key=lambda c: (c != '\x0c', c))
+    ctx.require(not diff, f'line table and lexer agree on the line terminators {sorted(term)!r}', mod, qn, f,
+                f'the line table is built with {short(f)} (line boundaries {sorted(seps)!r}) while Lexer.lex advances lineno only on {sorted(term)!r}: '
+                f'a file containing {diff[0]!r} (e.g. in a comment) before the edited statement shifts every later line index, the edit is spliced into the wrong line'
+                if diff else '', f)
+    return True
+
+
 def _line_table_prefix_sums(ctx: RuleCtx, mod: Module, scope: ast.AST, tname: str, rname: str, qn: str, term: T.Set[str]) -> None:
     """The table written as prefix sums: [0, *accumulate(len(l)+k for l in lines[:-1])], list(accumulate([0] + lengths[:-1])),
     list(accumulate(..., initial=0)) - same obligation as the loop form: start 0, advance len(line) + terminator length."""
@@ -923,6 +982,8 @@ def _line_table_prefix_sums(ctx: RuleCtx, mod: Module, scope: ast.AST, tname: st
     if isinstance(e, ast.List) and len(e.elts) == 2 and isinstance(e.elts[0], ast.Constant) and e.elts[0].value == 0 and isinstance(e.elts[1], ast.Starred):
         has_zero, e = True, e.elts[1].value
     if not (isinstance(e, ast.Call) and (attr_chain(e.func) or '').split('.')[-1] == 'accumulate' and e.args and len(e.args) == 1):
+        if _line_table_positions(ctx, mod, defs[tname][0], res, rname, qn, term):
+            return
         raise Undecided(f'{qn}: the line table {short(defs[tname][0])} is neither filled by a loop nor a prefix sum')
     ini = kwarg(e, 'initial')
     if ini is not None:
@@ -1108,8 +1169,17 @@ def r3(ctx: RuleCtx) -> None:
         kf = [f for f in ast.walk(fn) if isinstance(f, ast.FunctionDef) and f.name == key.id and f is not fn] or \
              ([mod.func(key.id)] if mod.has_func(key.id) else [])
         body_ = [st_ for st_ in kf[0].body if not (isinstance(st_, ast.Expr) and isinstance(st_.value, ast.Constant))] if len(kf) == 1 else []
+        # straight-line single-definition locals in front of the return are read through (`node = work['node']; return node.lineno, node.colno`)
+        env_: T.Dict[str, ast.AST] = {}
+        while len(body_) > 1 and (isinstance(body_[0], ast.Assign) and len(body_[0].targets) == 1 and isinstance(body_[0].targets[0], ast.Name)
+                                  or isinstance(body_[0], ast.AnnAssign) and isinstance(body_[0].target, ast.Name) and body_[0].value is not None):
+            tg_ = body_[0].targets[0] if isinstance(body_[0], ast.Assign) else body_[0].target
+            if tg_.id in env_ or tg_.id in [a_.arg for a_ in kf[0].args.args]:  # type: ignore[union-attr]
+                break
+            env_[tg_.id] = _Subst(dict(env_)).visit(copy.deepcopy(body_[0].value))  # type: ignore[union-attr]
+            body_ = body_[1:]
         if len(body_) == 1 and isinstance(body_[0], ast.Return) and body_[0].value is not None:
-            key = ast.Lambda(args=kf[0].args, body=FieldNorm().visit(copy.deepcopy(body_[0].value)))
+            key = ast.Lambda(args=kf[0].args, body=FieldNorm().visit(_Subst(dict(env_)).visit(copy.deepcopy(body_[0].value))))
     if isinstance(key, (ast.Name, ast.Call)) and not isinstance(key, ast.Lambda):
         g = _getter_lambda(mod, key)
         if g is not None:
@@ -1170,6 +1240,16 @@ def r3(ctx: RuleCtx) -> None:
     # carries a constant tag; the tags of positional edits are the constants the splice loop tests before it calls the splicer
     pmap = {ch: par_ for par_ in ast.walk(fn) for ch in ast.iter_child_nodes(par_)}
     positional: T.Set[T.Any] = set()
+
+    def tag_of(k_: ast.AST) -> T.Optional[str]:
+        """a constant tag: a string constant, or a member of an Enum class of the module (`Action.MODIFY`)"""
+        if isinstance(k_, ast.Constant) and isinstance(k_.value, str):
+            return k_.value
+        ch_ = attr_chain(k_)
+        if ch_ and ch_.count('.') == 1 and mod.has_cls(ch_.split('.')[0]) \
+                and any((attr_chain(b_) or '').split('.')[-1] in ('Enum', 'IntEnum', 'StrEnum', 'Flag') for b_ in mod.cls(ch_.split('.')[0]).bases):
+            return ch_
+        return None
     for c in ast.walk(loop):
         if calls_splicer(c):
             cur: ast.AST = c
@@ -1177,16 +1257,16 @@ def r3(ctx: RuleCtx) -> None:
                 par = pmap[cur]
                 if isinstance(par, ast.If) and cur in par.body:
                     for cmp_ in ast.walk(par.test):
-                        if isinstance(cmp_, ast.Compare) and len(cmp_.ops) == 1 and isinstance(cmp_.ops[0], (ast.Eq, ast.In)):
+                        if isinstance(cmp_, ast.Compare) and len(cmp_.ops) == 1 and isinstance(cmp_.ops[0], (ast.Eq, ast.In, ast.Is)):
                             sides_ = [cmp_.left, cmp_.comparators[0]]
                             for sd_ in sides_:
                                 els_ = sd_.elts if isinstance(sd_, (ast.Set, ast.Tuple, ast.List)) else [sd_]
-                                positional |= {k_.value for k_ in els_ if isinstance(k_, ast.Constant) and isinstance(k_.value, str)}
+                                positional |= {t_ for t_ in (tag_of(k_) for k_ in els_) if t_ is not None}
                 cur = par
     bad_late: T.List[ast.AST] = []
     for st_ in late:
         keys = {id(k_) for d_ in ast.walk(st_) if isinstance(d_, ast.Dict) for k_ in d_.keys}
-        tags = {k_.value for k_ in ast.walk(st_) if isinstance(k_, ast.Constant) and isinstance(k_.value, str) and id(k_) not in keys}
+        tags = {t_ for t_ in (tag_of(k_) for k_ in ast.walk(st_) if id(k_) not in keys) if t_ is not None}
         if not tags or not positional:
             raise Undecided(f'apply_changes: cannot tell what kind of entries `{short(st_)}` adds after the sort')
         if tags & positional:
@@ -2134,68 +2214,106 @@ def r6(ctx: RuleCtx) -> None:
     if not (isinstance(cls_o, Opaque) and cls_o.kind == 'class'):
         raise Undecided(f'rewriter_func_kwargs[{func_c!r}][{kwname!r}] is not a class')
     cmod, cdef = cls_o.node
-    pk = mod.func('Rewriter.process_kwargs')
+    pk0 = mod.func('Rewriter.process_kwargs')
     pm = mod.parent_map()
     meths: T.Set[str] = set()
-    pdefs: T.Dict[str, T.List[ast.AST]] = {}
-    for n in ast.walk(pk):
-        if isinstance(n, ast.Assign) and len(n.targets) == 1 and isinstance(n.targets[0], ast.Name):
-            pdefs.setdefault(n.targets[0].id, []).append(n.value)
-        elif isinstance(n, ast.AnnAssign) and isinstance(n.target, ast.Name) and n.value is not None:
-            pdefs.setdefault(n.target.id, []).append(n.value)
-        elif isinstance(n, ast.Name) and isinstance(n.ctx, ast.Store) and not any(n is getattr(p_, 'target', None) or n in getattr(p_, 'targets', []) for p_ in [pm.get(n)]):
-            pdefs.setdefault(n.id, []).extend([ast.Constant(value=None), ast.Constant(value=None)])   # loop / with / unpacking target: not a single definition
-    # single-definition locals that only re-name a field of the command (`operation = cmd['operation']`) are read through
-    cparam = [a.arg for a in pk.args.args][1]
-    renames = {k: v[0] for k, v in pdefs.items() if len(v) == 1 and isinstance(v[0], ast.Subscript) and norm(v[0].value) == cparam}
+    cparam = [a.arg for a in pk0.args.args][1]
 
-    def is_modifier(e: ast.AST) -> bool:
-        # <name> = <table>[key](...) with <table> = rewriter_func_kwargs[...]
-        if not (isinstance(e, ast.Name) and len(pdefs.get(e.id, [])) == 1):
-            return False
-        d = pdefs[e.id][0]
-        if not (isinstance(d, ast.Call) and isinstance(d.func, ast.Subscript) and isinstance(d.func.value, ast.Name)):
-            return False
-        t = pdefs.get(d.func.value.id, [])
-        return len(t) == 1 and isinstance(t[0], ast.Subscript) and norm(t[0].value) == 'rewriter_func_kwargs'   # index: cmd['function'] or a local for it
-    for c in ast.walk(pk):
-        if isinstance(c, ast.Call) and isinstance(c.func, ast.Attribute) and len(c.args) == 1 and is_modifier(c.func.value):
-            cur: ast.AST = c
-            while cur in pm and not isinstance(cur, ast.FunctionDef):
-                par = pm[cur]
-                if isinstance(par, ast.If) and cur in par.body:
-                    a, pol = canon(_Subst(renames).visit(copy.deepcopy(par.test)), True)
-                    if pol and a.kind == 'cmp' and a.args[0] == 'eq' and f"{cparam}['operation']" in a.args[1:] and repr(op_c) in a.args[1:]:
-                        meths.add(c.func.attr)
-                    break
-                cur = par
-    if not meths:
-        # table dispatch: `name = TABLE[cmd['operation']]` (possibly a row unpacked into several names) ... `getattr(modifier, name)(val)`
+    def scan(pk: ast.AST, extra_defs: T.Dict[str, T.List[ast.AST]], extra_renames: T.Dict[str, ast.AST], depth: int = 0) -> None:
+        pdefs: T.Dict[str, T.List[ast.AST]] = {}
+        for n in ast.walk(pk):
+            if isinstance(n, ast.Assign) and len(n.targets) == 1 and isinstance(n.targets[0], ast.Name):
+                pdefs.setdefault(n.targets[0].id, []).append(n.value)
+            elif isinstance(n, ast.AnnAssign) and isinstance(n.target, ast.Name) and n.value is not None:
+                pdefs.setdefault(n.target.id, []).append(n.value)
+            elif isinstance(n, ast.Name) and isinstance(n.ctx, ast.Store) and not any(n is getattr(p_, 'target', None) or n in getattr(p_, 'targets', []) for p_ in [pm.get(n)]):
+                pdefs.setdefault(n.id, []).extend([ast.Constant(value=None), ast.Constant(value=None)])   # loop / with / unpacking target: not a single definition
+        # single-definition locals that only re-name a field of the command (`operation = cmd['operation']`) are read through
+        for k_, v_ in extra_defs.items():
+            pdefs.setdefault(k_, []).extend(v_)
+        renames = {k: v[0] for k, v in pdefs.items() if len(v) == 1 and isinstance(v[0], ast.Subscript) and norm(v[0].value) == cparam}
+        renames.update(extra_renames)
+
+        def is_modifier(e: ast.AST) -> bool:
+            # <name> = <table>[key](...) with <table> = rewriter_func_kwargs[...]
+            if not (isinstance(e, ast.Name) and len(pdefs.get(e.id, [])) == 1):
+                return False
+            d = pdefs[e.id][0]
+            if not (isinstance(d, ast.Call) and isinstance(d.func, ast.Subscript) and isinstance(d.func.value, ast.Name)):
+                return False
+            t = pdefs.get(d.func.value.id, [])
+            return len(t) == 1 and isinstance(t[0], ast.Subscript) and norm(t[0].value) == 'rewriter_func_kwargs'   # index: cmd['function'] or a local for it
         for c in ast.walk(pk):
-            if not (isinstance(c, ast.Call) and isinstance(c.func, ast.Call) and norm(c.func.func) == 'getattr' and len(c.func.args) == 2
-                    and is_modifier(c.func.args[0]) and isinstance(c.func.args[1], ast.Name)):
-                continue
-            mname_var = c.func.args[1].id
-            for n in ast.walk(pk):
-                if not (isinstance(n, ast.Assign) and len(n.targets) == 1):
+            if isinstance(c, ast.Call) and isinstance(c.func, ast.Attribute) and len(c.args) == 1 and is_modifier(c.func.value):
+                cur: ast.AST = c
+                while cur in pm and not isinstance(cur, ast.FunctionDef):
+                    par = pm[cur]
+                    if isinstance(par, ast.If) and cur in par.body:
+                        a, pol = canon(_Subst(renames).visit(copy.deepcopy(par.test)), True)
+                        if pol and a.kind == 'cmp' and a.args[0] == 'eq' and f"{cparam}['operation']" in a.args[1:] and repr(op_c) in a.args[1:]:
+                            meths.add(c.func.attr)
+                        break
+                    cur = par
+        if not meths:
+            # table dispatch: `name = TABLE[cmd['operation']]` (possibly a row unpacked into several names) ... `getattr(modifier, name)(val)`
+            for c in ast.walk(pk):
+                if not (isinstance(c, ast.Call) and isinstance(c.func, ast.Call) and norm(c.func.func) == 'getattr' and len(c.func.args) == 2
+                        and is_modifier(c.func.args[0]) and isinstance(c.func.args[1], ast.Name)):
                     continue
-                tg = n.targets[0]
-                names_ = [norm(e_) for e_ in tg.elts] if isinstance(tg, (ast.Tuple, ast.List)) else [norm(tg)]
-                if mname_var not in names_:
+                mname_var = c.func.args[1].id
+                for n in ast.walk(pk):
+                    if not (isinstance(n, ast.Assign) and len(n.targets) == 1):
+                        continue
+                    tg = n.targets[0]
+                    names_ = [norm(e_) for e_ in tg.elts] if isinstance(tg, (ast.Tuple, ast.List)) else [norm(tg)]
+                    if mname_var not in names_:
+                        continue
+                    v = _Subst(renames).visit(copy.deepcopy(n.value))
+                    key_ok = isinstance(v, ast.Subscript) and isinstance(v.value, ast.Name) and norm(v.slice) == f"{cparam}['operation']"
+                    if isinstance(v, ast.Call) and isinstance(v.func, ast.Attribute) and v.func.attr == 'get' and isinstance(v.func.value, ast.Name) \
+                            and v.args and norm(v.args[0]) == f"{cparam}['operation']":
+                        key_ok, v = True, ast.Subscript(value=v.func.value, slice=v.args[0], ctx=ast.Load())
+                    if not key_ok or not mod.has_assign(v.value.id):  # type: ignore[attr-defined]
+                        continue
+                    tabv = fold_expr(ctx.repo, mod, mod.assign_value(v.value.id))  # type: ignore[attr-defined]
+                    if isinstance(tabv, dict) and op_c in tabv:
+                        row = tabv[op_c]
+                        val_ = row[names_.index(mname_var)] if isinstance(tg, (ast.Tuple, ast.List)) else row
+                        if isinstance(val_, str):
+                            meths.add(val_)
+        # the per-key work may be extracted into a method / function that receives the keyword table and the operation: read it there,
+        # with its parameters bound to what the caller passes
+        if depth < 2:
+            for c in ast.walk(pk):
+                if not isinstance(c, ast.Call):
                     continue
-                v = _Subst(renames).visit(copy.deepcopy(n.value))
-                key_ok = isinstance(v, ast.Subscript) and isinstance(v.value, ast.Name) and norm(v.slice) == f"{cparam}['operation']"
-                if isinstance(v, ast.Call) and isinstance(v.func, ast.Attribute) and v.func.attr == 'get' and isinstance(v.func.value, ast.Name) \
-                        and v.args and norm(v.args[0]) == f"{cparam}['operation']":
-                    key_ok, v = True, ast.Subscript(value=v.func.value, slice=v.args[0], ctx=ast.Load())
-                if not key_ok or not mod.has_assign(v.value.id):  # type: ignore[attr-defined]
+                cn = (attr_chain(c.func) or '').split('.')
+                h: T.Any = None
+                is_m = False
+                if len(cn) == 2 and cn[0] in ('self', 'cls', 'Rewriter') and mod.has_func(f'Rewriter.{cn[1]}'):
+                    h, is_m = mod.func(f'Rewriter.{cn[1]}'), 'staticmethod' not in [norm(d) for d in mod.func(f'Rewriter.{cn[1]}').decorator_list] or cn[0] == 'Rewriter'
+                    is_m = 'staticmethod' not in [norm(d) for d in h.decorator_list]
+                elif len(cn) == 1 and cn[0] and mod.has_func(cn[0]):
+                    h = mod.func(cn[0])
+                if not isinstance(h, ast.FunctionDef) or h is pk or h is pk0:
                     continue
-                tabv = fold_expr(ctx.repo, mod, mod.assign_value(v.value.id))  # type: ignore[attr-defined]
-                if isinstance(tabv, dict) and op_c in tabv:
-                    row = tabv[op_c]
-                    val_ = row[names_.index(mname_var)] if isinstance(tg, (ast.Tuple, ast.List)) else row
-                    if isinstance(val_, str):
-                        meths.add(val_)
+                try:
+                    bnd = bind_args(c, h, is_m)
+                except Exception:
+                    continue
+                xd: T.Dict[str, T.List[ast.AST]] = {}
+                xr: T.Dict[str, ast.AST] = {}
+                for prm, arg in bnd.items():
+                    arg2 = _Subst(renames).visit(copy.deepcopy(arg))
+                    if norm(arg2) == f"{cparam}['operation']":
+                        xr[prm] = arg2
+                    elif isinstance(arg, ast.Name) and len(pdefs.get(arg.id, [])) == 1 and isinstance(pdefs[arg.id][0], ast.Subscript) \
+                            and norm(pdefs[arg.id][0].value) == 'rewriter_func_kwargs':
+                        xd[prm] = [pdefs[arg.id][0]]
+                if xd and xr:
+                    scan(h, xd, xr, depth + 1)
+
+    scan(pk0, {}, {})
     if len(meths) != 1:
         raise Undecided(f'process_kwargs: operation {op_c!r} dispatches to {sorted(meths)}')
     entry = next(iter(meths))
@@ -2541,33 +2659,121 @@ def r9(ctx: RuleCtx) -> None:
         if not any(isinstance(c, ast.Call) and (attr_chain(c.func) or '').split('.')[-1] == 'BooleanNode' for c in ast.walk(fn)):
             continue
         n += 1
-        bad = _truthiness_of_text(fn)
+        cname = qn.split('.')[0] if '.' in qn and mod.has_cls(qn.split('.')[0]) else None
+        fenv: T.Dict[str, T.Any] = {}
+        if cname is not None:
+            from ..consteval import Opaque
+            fenv = {x: Opaque('class', cname, (mod, mod.cls(cname))) for x in ('cls', 'self', cname)}
+        bad = _truthiness_of_text(fn, lambda e, _c=cname, _e=fenv: fold_expr(ctx.repo, mod, e, cls=_c, env=_e))
         ctx.require(not bad, f'{qn}: no text value reaches bool() on its way into a BooleanNode', mod, qn, bad[0] if bad else fn,
                     f'`{short(bad[0]) if bad else ""}` takes the truthiness of a value declared as text: `kwargs set <fn> <id> install false` (the command line delivers the text '
                     "'false') stores `install : true` - every non-empty text is true", bad[0] if bad else None)
     ctx.floor('BooleanNode constructions from a requested value', n, 1)
 
 
-def _truthiness_of_text(fn: ast.FunctionDef) -> T.List[ast.Call]:
-    """bool(<parameter annotated as str>) reached on a path where the parameter can still be text."""
+_STR_TO_STR = {'lower', 'upper', 'strip', 'lstrip', 'rstrip', 'casefold', 'title', 'capitalize', 'swapcase', 'replace', 'format', 'removeprefix',
+               'removesuffix', 'translate', 'expandtabs', 'center', 'ljust', 'rjust', 'zfill', 'join'}
+_NOT_TEXT_BUILTINS = {'bool', 'int', 'float', 'len', 'isinstance', 'hash', 'ord', 'any', 'all'}
+_STR_PREDICATES = {'startswith', 'endswith', 'isdigit', 'isalpha', 'isalnum', 'isspace', 'islower', 'isupper', 'isidentifier', 'isnumeric', 'isdecimal',
+                   'find', 'rfind', 'index', 'rindex', 'count'}
+
+
+def _truthiness_of_text(fn: ast.FunctionDef, folder: T.Optional[T.Callable[[ast.AST], T.Any]] = None) -> T.List[ast.Call]:
+    """bool(<expression>) reached on a path where the expression can still be (derived text of) a parameter annotated as str.
+    Every local is classified along the path: 'text' (the parameter, a str method / slice / str() of text, a text constant, an entry of
+    a constant table with text values), 'other' (comparison, not, a bool/None/number constant, an entry of a constant table without text
+    values, int()/len()/bool()..., anything that does not depend on a text value), 'unknown' (depends on a text value in a way that is not read:
+    bool() of it ends Undecided)."""
     textual = {a.arg for a in fn.args.args + fn.args.kwonlyargs if a.annotation is not None and 'str' in {n.id for n in ast.walk(a.annotation) if isinstance(n, ast.Name)}}
     out: T.List[ast.Call] = []
+
+    def join(cs: T.Iterable[str]) -> str:
+        cs = list(cs)
+        return 'text' if 'text' in cs else 'unknown' if 'unknown' in cs else 'other'
+
+    def table(e: ast.AST) -> T.Optional[str]:
+        """class of the values of a constant dict (None: not a constant dict)"""
+        tab: T.Any = None
+        if isinstance(e, ast.Dict) and all(k is not None for k in e.keys):
+            return join(classify(v, {}) for v in e.values)
+        if folder is not None and isinstance(e, (ast.Name, ast.Attribute)):
+            try:
+                tab = folder(e)
+            except Undecided:
+                tab = None
+        if isinstance(tab, dict):
+            return 'text' if any(isinstance(v, str) for v in tab.values()) else 'other' if all(v is None or isinstance(v, (bool, int, float)) for v in tab.values()) else 'unknown'
+        return None
+
+    def classify(e: ast.AST, env: T.Dict[str, str]) -> str:
+        if isinstance(e, ast.Constant):
+            return 'text' if isinstance(e.value, str) else 'other'
+        if isinstance(e, ast.JoinedStr):
+            return 'text'
+        if isinstance(e, ast.Name):
+            return env.get(e.id, 'other')
+        if isinstance(e, (ast.Compare,)) or (isinstance(e, ast.UnaryOp) and isinstance(e.op, ast.Not)):
+            return 'other'
+        if isinstance(e, ast.BoolOp):
+            return join(classify(v, env) for v in e.values)
+        if isinstance(e, ast.IfExp):
+            return join([classify(e.body, env), classify(e.orelse, env)])
+        if isinstance(e, ast.NamedExpr):
+            return classify(e.value, env)
+        tainted = any(isinstance(n, ast.Name) and env.get(n.id) in ('text', 'unknown') for n in ast.walk(e))
+        if isinstance(e, ast.Call):
+            fname = norm(e.func)
+            if fname in _NOT_TEXT_BUILTINS:
+                return 'other'
+            if fname == 'str' and len(e.args) == 1:
+                return 'text' if tainted else 'other'
+            if isinstance(e.func, ast.Attribute):
+                recv = e.func.value
+                if e.func.attr == 'get' and 1 <= len(e.args) <= 2:
+                    t = table(recv)
+                    if t is not None:
+                        return join([t] + [classify(a, env) for a in e.args[1:]])
+                if e.func.attr in _STR_TO_STR and classify(recv, env) == 'text':
+                    return 'text'
+                if e.func.attr in _STR_PREDICATES and classify(recv, env) == 'text':
+                    return 'other'
+            return 'unknown' if tainted else 'other'
+        if isinstance(e, ast.Subscript):
+            t = table(e.value)
+            if t is not None:
+                return t
+            if classify(e.value, env) == 'text':
+                return 'text'
+            return 'unknown' if tainted else 'other'
+        if isinstance(e, ast.BinOp) and isinstance(e.op, (ast.Add, ast.Mod, ast.Mult)) and 'text' in (classify(e.left, env), classify(e.right, env)):
+            return 'text'
+        return 'unknown' if tainted else 'other'
+
     for p in enumerate_paths(fn.body, unroll=0):
-        rebound: T.Set[str] = set()
         not_text = {k[len('isinstance('):].split(',')[0] for k, v in p.conds() if k.startswith('isinstance(') and k.rstrip(')').endswith(', str') and not v}
+        env: T.Dict[str, str] = {v: ('other' if v in not_text else 'text') for v in textual}
         for ev in p.events:
             if ev.kind != 'stmt' or ev.node is None:
                 continue
             for c in ast.walk(ev.node):
-                if isinstance(c, ast.Call) and norm(c.func) == 'bool' and len(c.args) == 1 and isinstance(c.args[0], ast.Name):
-                    v = c.args[0].id
-                    if v in textual and v not in rebound and v not in not_text and not any(c is x for x in out):
+                if isinstance(c, ast.Call) and norm(c.func) == 'bool' and len(c.args) == 1:
+                    k = classify(c.args[0], env)
+                    if k == 'unknown':
+                        raise Undecided(f'{fn.name}: `{short(c)}` takes the truthiness of a value derived from a text parameter in a way that is not read')
+                    if k == 'text' and not any(c is x for x in out):
                         out.append(c)
-            if isinstance(ev.node, ast.Assign):
-                for t in ev.node.targets:
-                    if isinstance(t, ast.Name) and isinstance(ev.node.value, (ast.Compare, ast.BoolOp)) or \
-                            (isinstance(t, ast.Name) and isinstance(ev.node.value, ast.Constant) and isinstance(ev.node.value.value, bool)):
-                        rebound.add(t.id)   # now a real boolean
+            st = ev.node
+            if isinstance(st, ast.Assign) and all(isinstance(t, ast.Name) for t in st.targets):
+                k = classify(st.value, env)
+                for t in st.targets:
+                    env[T.cast(ast.Name, t).id] = k
+            elif isinstance(st, ast.AnnAssign) and isinstance(st.target, ast.Name) and st.value is not None:
+                env[st.target.id] = classify(st.value, env)
+            else:
+                tainted = any(isinstance(n, ast.Name) and isinstance(n.ctx, ast.Load) and env.get(n.id) in ('text', 'unknown') for n in ast.walk(st))
+                for n in ast.walk(st):
+                    if isinstance(n, ast.Name) and isinstance(n.ctx, (ast.Store, ast.Del)):
+                        env[n.id] = 'unknown' if tainted else 'other'
     return out
 
 
